@@ -110,8 +110,11 @@ class ModelModifier:
     """
     buffer_size = 0
     for buffer in quantized_model.buffers:
-      if buffer.data is None:
-        self._constant_map.append(buffer.data)
+      if buffer.data is None or len(buffer.data) == 0:  # pylint: disable=g-explicit-length-test
+        # Nothing to store outside of the flatbuffer. An empty buffer stays
+        # as it is: as an external buffer its size field (0) would be omitted
+        # by the flatbuffer builder, invalidating the precomputed offsets.
+        self._constant_map.append(None)
       elif isinstance(buffer.data, np.ndarray):
         self._constant_map.append(buffer.data.tobytes())
         buffer_size += len(buffer.data.tobytes())
@@ -136,8 +139,8 @@ class ModelModifier:
     # buffer offsets.
 
     # remove all the constant from the model.
-    for buffer in quantized_model.buffers:
-      if buffer.data is not None:
+    for buffer_idx, buffer in enumerate(quantized_model.buffers):
+      if self._constant_map[buffer_idx] is not None:
         buffer.data = None
         buffer.offset = 1
         buffer.size = 1
